@@ -326,6 +326,7 @@ def extract_fn(relpath, qual, ann):
     apply_maploops(ed, it, it["closures"], src, ann, qual, relpath)
     apply_forloops(ed, it["loops"], src, ann, qual)
     apply_fund_sums(ed, src, s0, e0)
+    apply_destructuring_assign(ed, src, s0, e0)
     apply_storage_has(ed, it, src)
     apply_anyloops(ed, it, it["closures"], src, ann, qual)
     apply_findloops(ed, it, it["closures"], src, ann, qual)
@@ -488,6 +489,18 @@ def apply_storage_has(ed, it, src, inside=lambda sp: True):
 
 
 
+_DESTRUCT_ASSIGN = re.compile(rb"(?m)^([ \t]*)\(\s*(\w+)\s*,\s*(\w+)\s*\)\s*=\s*([^;=][^;]*);")
+
+
+def apply_destructuring_assign(ed, src, s0, e0):
+    """D21 (mechanical): `(a, b) = E;` -> `let verif_t = E; a = verif_t.0; b = verif_t.1;` (Verus has no destructuring assignment)."""
+    body = src[s0:e0]
+    for n, m in enumerate(_DESTRUCT_ASSIGN.finditer(body)):
+        a, b, e = m.group(2).decode(), m.group(3).decode(), m.group(4).decode().strip()
+        ed.add(s0 + m.start(), s0 + m.end(), m.group(1).decode() + f"let verif_t{n} = {e}; {a} = verif_t{n}.0; {b} = verif_t{n}.1;", "D21", "tuple destructuring assignment spelled out")
+
+
+
 def apply_maploops(ed, it, closures, src, ann, qual, relpath):
     # D2: `X.into_iter()/.iter().map(|p| { BODY; Ok(p) | EXPR }).collect[::<..>]()[?]` -> index loop over X with BODY copied by span
     for k, inv in (ann.get("maploops") or {}).items():
@@ -548,6 +561,22 @@ def apply_forloops(ed, loops, src, ann, qual):
         xs, xe = l["iter_expr"]
         xtxt = src[xs:xe].decode().strip()
         ptxt = src[l["pat"][0]:l["pat"][1]].decode()
+        mr = re.match(r"^([\w\.\(\)\s\+\-\*]+?)\s*\.\.(=?)\s*([\w\.\(\)\s\+\-\*]+)$", xtxt)
+        if mr and ".." not in mr.group(1) and ".." not in mr.group(3):
+            # D3 on an integer range: `for x in A..=B` / `A..B` -> counter loop (the inclusive form stops by comparison, never by overflow)
+            lo, incl, hi = mr.group(1).strip(), mr.group(2) == "=", mr.group(3).strip()
+            b0, b1 = l["body"]
+            step = (f"if verif_r{k} == verif_e{k} {{ break; }} verif_r{k} = verif_r{k} + 1;" if incl else f"verif_r{k} = verif_r{k} + 1;")
+            head = (f"let mut verif_r{k} = {lo}; let verif_e{k} = {hi};\nwhile verif_r{k} {'<=' if incl else '<'} verif_e{k}\n" + inv.rstrip()
+                    + f"\n    decreases verif_e{k} - verif_r{k}\n{{ let {ptxt} = verif_r{k};\n")
+            ed.add(l["span"][0], b0 + 1, head, "D3", f"`for {ptxt} in {xtxt[:30]}` desugared to a counter loop (body copied by span)")
+            ed.add(b1 - 1, b1 - 1, " " + step + " ", None)
+            body_txt = src[b0:b1].decode()
+            if any(o["span"][0] > b0 and o["span"][1] < b1 for o in loops) and re.search(r"\bcontinue\b", body_txt):
+                raise Inconclusive(f"D3: for-loop #{k} of {qual} has nested loops and `continue`")
+            for mm in re.finditer(r"\bcontinue\s*;", body_txt):
+                ed.add(b0 + mm.start(), b0 + mm.end(), "{ " + step + " continue; }", "D3", "continue target made explicit")
+            continue
         byref = False
         m = re.match(r"^(.*)\.iter\(\)$", xtxt, re.S)
         if m:
@@ -675,6 +704,7 @@ def extract_segment(relpath, qual, ann):
     apply_maploops(ed, it, seg_closures, src, ann, qual, relpath)
     apply_forloops(ed, seg_loops, src, ann, qual)
     apply_fund_sums(ed, src, s0, e0)
+    apply_destructuring_assign(ed, src, s0, e0)
     apply_storage_has(ed, it, src, inside)
     apply_anyloops(ed, it, seg_closures, src, ann, qual)
     apply_findloops(ed, it, seg_closures, src, ann, qual)
